@@ -8,6 +8,21 @@ def _c15_case(c):
     p = c.split(" ")
     if p[0] in ("C", "W") and p[-1].startswith("J"):
         return _json.loads(bytes.fromhex(p[-1][1:]).decode("utf-8"))
+    if p[0] == "S":
+        def unhex(h):  # values may be UTF-8
+            return "" if h == "-" else bytes.fromhex(h).decode("utf-8", "replace")
+
+        def _items(t):
+            return [] if t == "_" else [{"Name": unhex(a), "ArtifactType": unhex(b_)} for a, b_ in (x.split(":") for x in t.split(","))]
+
+        def _kvs(t):
+            out = []
+            for kv in ([] if t == "_" else t.split("&")):
+                k, v = kv.split("=", 1)
+                out.append({"K": unhex(k), "V": v[1:] if v[0] == "N" else unhex(v[1:])})
+            return out
+        return {"op": "regpage", "kind": p[1], "items": _items(p[2]), "cap": int(p[3]), "path": unhex(p[4]), "query": _kvs(p[5]),
+                "dec": {"M": int(p[6]), "Extra": _kvs(p[7]) or None, "Filter": p[8] == "1", "FHdr": unhex(p[9]), "FAnn": unhex(p[10])}}
     if p[0] == "L":
         return {"op": "link", "cmp": p[1], "header": unhex(p[2])}
     if p[0] == "F":
